@@ -1,0 +1,39 @@
+//! Verification hooks: compiled only with `--cfg dust_dds_verif`.
+//! Re-exports of already-`pub` items of private modules and a few constructors for types
+//! with crate-private fields, so that an external harness can drive the real code in-process.
+//! Adds no behaviour to the library.
+#![allow(missing_docs)]
+
+pub use crate::dcps::dcps_domain_participant::data_reader_entity::{
+    AddChangeResult, DataReaderEntity, InstanceOwnership, InstanceState, ReaderSample, SampleList,
+};
+pub use crate::dcps::dcps_domain_participant::user_defined_data_reader::UserDefinedDataReader;
+pub use crate::dcps::status_mask::StatusMask;
+
+use crate::builtin_topics::{BuiltInTopicKey, PublicationBuiltinTopicData};
+
+/// A discovered-writer record with the given key and ownership strength, everything else default.
+pub fn publication_builtin_topic_data(key: [u8; 16], strength: i32) -> PublicationBuiltinTopicData {
+    PublicationBuiltinTopicData {
+        key: BuiltInTopicKey { value: key },
+        participant_key: BuiltInTopicKey { value: [0; 16] },
+        topic_name: Default::default(),
+        type_name: Default::default(),
+        type_information: None,
+        durability: Default::default(),
+        deadline: Default::default(),
+        latency_budget: Default::default(),
+        liveliness: Default::default(),
+        reliability: crate::infrastructure::qos_policy::DEFAULT_RELIABILITY_QOS_POLICY_DATA_WRITER,
+        lifespan: Default::default(),
+        user_data: Default::default(),
+        ownership: Default::default(),
+        ownership_strength: crate::infrastructure::qos_policy::OwnershipStrengthQosPolicy { value: strength },
+        destination_order: Default::default(),
+        presentation: Default::default(),
+        partition: Default::default(),
+        topic_data: Default::default(),
+        group_data: Default::default(),
+        representation: Default::default(),
+    }
+}
